@@ -4,6 +4,7 @@ import Driver.C06
 import Driver.C08
 import Driver.C15
 import Driver.C16
+import Driver.C17
 import Driver.C18
 import Driver.C19
 import Driver.C20
@@ -11,7 +12,7 @@ import Driver.Scope
 open Driver Selene
 
 def allHandlers : List (String × Handler) :=
-  Driver.C05.handlers ++ Driver.C06.handlers ++ Driver.C08.handlers ++ Driver.C15.handlers ++ Driver.C16.handlers ++ Driver.C18.handlers ++ Driver.C19.handlers ++ Driver.C20.handlers ++ Driver.Scope.handlers
+  Driver.C05.handlers ++ Driver.C06.handlers ++ Driver.C08.handlers ++ Driver.C15.handlers ++ Driver.C16.handlers ++ Driver.C17.handlers ++ Driver.C18.handlers ++ Driver.C19.handlers ++ Driver.C20.handlers ++ Driver.Scope.handlers
 
 def handleLine (line : String) : String :=
   match line.splitOn "\t" with
